@@ -131,6 +131,30 @@ let run (f : string list) : string =
         (match rebuild y src c0 with
          | Ok b -> show_entries y ^ " 0 0 " ^ show_records (drop (List.length initial_ctx) (ctx_obs b))
          | Err e -> show_entries y ^ " 0 E" ^ dec_of_n e ^ " -")
+    | "chg" :: opts :: rest when (int_of_string opts) land 128 <> 0 ->
+        (* the counter events of ly_ctx_load_module / lys_set_implemented under LY_CTX_EXPLICIT_COMPILE; per operation
+           0:0:<events>:<modules added>:<records changed>, E for a failing operation *)
+        let recs, ops = split_slash [] rest in
+        let rs = List.map parse_rec recs in
+        let src = List.map ymod_of rs in
+        let rec take k l = if k = 0 then [] else match l with [] -> [] | x :: r -> x :: take (k - 1) r in
+        let c0 = if (int_of_string opts) land 4 <> 0 then take 6 initial_ctx else initial_ctx in
+        let c = ref c0 in
+        let one op =
+          match split ':' op with
+          | [kind; i; fs] ->
+              let r = List.nth rs (int_of_string i) in
+              let res = (if kind = "L" then load_op true true src !c r.hm.h_name r.hm.h_rev (parse_fspec fs)
+                         else set_impl_op true true !c (r.hm.h_name, r.hm.h_rev) (parse_fspec fs)) in
+              (match res with
+               | Err _ -> "E"
+               | Ok (c', n) ->
+                   let added = List.length c' - List.length !c in
+                   let changed = if ctx_obs c' = ctx_obs !c then 0 else 1 in
+                   c := c';
+                   Printf.sprintf "0:0:%s:%d:%d" (dec_of_n n) added changed)
+          | _ -> "E" in
+        String.concat " " ("0" :: List.map one ops)
     | "ccwrap" :: start :: ns ->
         String.concat "," (List.map dec_of_n (cc_run (n_of_dec start) (List.map n_of_dec ns)))
     | _ -> "?"
